@@ -85,14 +85,14 @@ Proof.
   - eapply Permutation_in; [apply H|exact K].
 Qed.
 
-Definition step_f (tord bord : oracle) (fuel pfuel : nat) (p : program) (s : state) (o : op) : state * opres :=
+Definition step_f (tord bord pord : oracle) (fuel pfuel : nat) (p : program) (s : state) (o : op) : state * opres :=
   let s := set_log s [] in
   match o with
   | OSetWorld i v =>
       (set_world s ((i, v) :: filter (fun '(k, _) => negb (k =? i)%N) (s_world s)), mkRes RUnit [] None)
   | ORestart => (restart s, mkRes RUnit [] None)
   | OQuery n =>
-      match query_for_o p None tord bord fuel [] CUser None n s with
+      match query_for_o p None tord bord pord fuel [] CUser None n s with
       | Ok (QValue (Some z), _, _, s') => (s', mkRes (RValue z) (rev (s_log s')) (Some (s_stat s')))
       | Ok (_, _, _, s') => (s', mkRes RPanic (rev (s_log s')) (Some (s_stat s')))
       | Panic _ => (s, mkRes RPanic [] None)
@@ -119,39 +119,39 @@ Definition step_f (tord bord : oracle) (fuel pfuel : nat) (p : program) (s : sta
                     (s_ext s1) (s1, batch)
         else (s1, batch) in
       let s3 := set_visited (set_stat s2 0%N) [] in
-      match propagate pfuel s3 batch2 with
+      match propagate_o pord pfuel s3 batch2 with
       | Ok s4 => (s4, mkRes (RSession rs) (rev (s_log s4)) None)
       | _ => (s3, mkRes RFuel [] None)
       end
   end.
-Fixpoint run_history_f (tord bord : oracle) (fuel pfuel : nat) (p : program) (s : state) (ops : list op) : list opres :=
+Fixpoint run_history_f (tord bord pord : oracle) (fuel pfuel : nat) (p : program) (s : state) (ops : list op) : list opres :=
   match ops with
   | [] => []
-  | o :: r => let '(s', x) := step_f tord bord fuel pfuel p s o in x :: run_history_f tord bord fuel pfuel p s' r
+  | o :: r => let '(s', x) := step_f tord bord pord fuel pfuel p s o in x :: run_history_f tord bord pord fuel pfuel p s' r
   end.
 
-Lemma step_o_is_step_f : forall tord bord p s o, step_o tord bord p s o = step_f tord bord fuel0 4000 p s o.
+Lemma step_op_is_step_f : forall tord bord pord p s o, step_op tord bord pord p s o = step_f tord bord pord fuel0 4000 p s o.
 Proof. reflexivity. Qed.
-Lemma step_is_step_f : forall p s o, step p s o = step_f ord_id ord_id fuel0 4000 p s o.
+Lemma step_is_step_f : forall p s o, step p s o = step_f ord_id ord_id ord_id fuel0 4000 p s o.
 Proof. reflexivity. Qed.
-Lemma run_history_o_is_f : forall tord bord p ops s,
-  run_history_o tord bord p s ops = run_history_f tord bord fuel0 4000 p s ops.
-Proof. intros tord bord p ops. induction ops as [|o r IH]; intro s; cbn [run_history_o run_history_f]; [reflexivity|].
-  rewrite step_o_is_step_f. destruct (step_f tord bord fuel0 4000 p s o). rewrite IH. reflexivity. Qed.
-Lemma run_history_is_f : forall p ops s, run_history p s ops = run_history_f ord_id ord_id fuel0 4000 p s ops.
-Proof. intros. unfold run_history. apply run_history_o_is_f. Qed.
+Lemma run_history_op_is_f : forall tord bord pord p ops s,
+  run_history_op tord bord pord p s ops = run_history_f tord bord pord fuel0 4000 p s ops.
+Proof. intros tord bord pord p ops. induction ops as [|o r IH]; intro s; cbn [run_history_op run_history_f]; [reflexivity|].
+  rewrite step_op_is_step_f. destruct (step_f tord bord pord fuel0 4000 p s o). rewrite IH. reflexivity. Qed.
+Lemma run_history_is_f : forall p ops s, run_history p s ops = run_history_f ord_id ord_id ord_id fuel0 4000 p s ops.
+Proof. intros. unfold run_history, run_history_o. apply run_history_op_is_f. Qed.
 
 (** no session before operation [i] ran out of fuel (see [CoreSpec.sessions_fuelled]) *)
-Definition msessions_fuelled (tord bord : oracle) (fuel pfuel : nat) (p : program) (ops : list op) (i : nat) : Prop :=
+Definition msessions_fuelled (tord bord pord : oracle) (fuel pfuel : nat) (p : program) (ops : list op) (i : nat) : Prop :=
   forall k sets b rk, (k < i)%nat -> nth_error ops k = Some (OSession sets b) ->
-    nth_error (run_history_f tord bord fuel pfuel p init_state ops) k = Some rk -> r_out rk <> RFuel.
+    nth_error (run_history_f tord bord pord fuel pfuel p init_state ops) k = Some rk -> r_out rk <> RFuel.
 
 (** C01 on the full model *)
 Definition model_sound_statement_f : Prop :=
-  forall tord bord fuel pfuel p ops i n r z, order_ok tord -> order_ok bord -> wf_model p -> Forall op_in_scope ops ->
-    msessions_fuelled tord bord fuel pfuel p ops i ->
+  forall tord bord pord fuel pfuel p ops i n r z, order_ok tord -> order_ok bord -> order_ok pord -> wf_model p -> Forall op_in_scope ops ->
+    msessions_fuelled tord bord pord fuel pfuel p ops i ->
     nth_error ops i = Some (OQuery n) ->
-    nth_error (run_history_f tord bord fuel pfuel p init_state ops) i = Some r ->
+    nth_error (run_history_f tord bord pord fuel pfuel p init_state ops) i = Some r ->
     r_out r = RValue z ->
     MdlSpec p (inputs_after (firstn i ops)) n z.
 
@@ -169,10 +169,10 @@ Definition model_sound_statement : Prop :=
 
 (** the same for programs with unordered groups *)
 Definition model_sound_g_statement_f : Prop :=
-  forall tord bord fuel pfuel p ops i n r z, order_ok tord -> order_ok bord -> wf_model_g p -> Forall op_in_scope ops ->
-    msessions_fuelled tord bord fuel pfuel p ops i ->
+  forall tord bord pord fuel pfuel p ops i n r z, order_ok tord -> order_ok bord -> order_ok pord -> wf_model_g p -> Forall op_in_scope ops ->
+    msessions_fuelled tord bord pord fuel pfuel p ops i ->
     nth_error ops i = Some (OQuery n) ->
-    nth_error (run_history_f tord bord fuel pfuel p init_state ops) i = Some r ->
+    nth_error (run_history_f tord bord pord fuel pfuel p init_state ops) i = Some r ->
     r_out r = RValue z ->
     MdlSpec p (inputs_after (firstn i ops)) n z.
 Definition model_sound_g_statement : Prop :=
@@ -259,14 +259,26 @@ Definition ext_after (ops : list op) (rs : list opres) : xenv :=
 (** C01 with external inputs: every history *)
 Definition model_sessions_fuelled_x := model_sessions_fuelled.
 Definition model_sound_x_statement_f : Prop :=
-  forall tord bord fuel pfuel p ops i n r z, order_ok tord -> order_ok bord -> wf_model_x p ->
-    msessions_fuelled tord bord fuel pfuel p ops i ->
+  forall tord bord pord fuel pfuel p ops i n r z, order_ok tord -> order_ok bord -> order_ok pord -> wf_model_x p ->
+    msessions_fuelled tord bord pord fuel pfuel p ops i ->
     nth_error ops i = Some (OQuery n) ->
-    nth_error (run_history_f tord bord fuel pfuel p init_state ops) i = Some r ->
+    nth_error (run_history_f tord bord pord fuel pfuel p init_state ops) i = Some r ->
     r_out r = RValue z ->
     MdlSpecX p (inputs_after (firstn i ops),
-                ext_after (firstn (S i) ops) (firstn (S i) (run_history_f tord bord fuel pfuel p init_state ops))) n z.
+                ext_after (firstn (S i) ops) (firstn (S i) (run_history_f tord bord pord fuel pfuel p init_state ops))) n z.
 (** the same about [Model.run_history_o], for every order of the parallel tasks *)
+Definition model_sessions_fuelled_op (tord bord pord : oracle) (p : program) (ops : list op) (i : nat) : Prop :=
+  forall k sets b rk, (k < i)%nat -> nth_error ops k = Some (OSession sets b) ->
+    nth_error (run_history_op tord bord pord p init_state ops) k = Some rk -> r_out rk <> RFuel.
+Definition model_sound_x_statement_op : Prop :=
+  forall tord bord pord p ops i n r z, order_ok tord -> order_ok bord -> order_ok pord -> wf_model_x p ->
+    model_sessions_fuelled_op tord bord pord p ops i ->
+    nth_error ops i = Some (OQuery n) ->
+    nth_error (run_history_op tord bord pord p init_state ops) i = Some r ->
+    r_out r = RValue z ->
+    MdlSpecX p (inputs_after (firstn i ops),
+                ext_after (firstn (S i) ops) (firstn (S i) (run_history_op tord bord pord p init_state ops))) n z.
+(** the dirty propagation in list order *)
 Definition model_sessions_fuelled_o (tord bord : oracle) (p : program) (ops : list op) (i : nat) : Prop :=
   forall k sets b rk, (k < i)%nat -> nth_error ops k = Some (OSession sets b) ->
     nth_error (run_history_o tord bord p init_state ops) k = Some rk -> r_out rk <> RFuel.
